@@ -131,6 +131,8 @@ def run_shard(driver, scens, workdir, name, watchdog_s=4):
             raise Inconclusive('harness failure in shard %s: %s' % (name, err[-3000:]))
         if sc is None or sc not in idx_of:
             raise Inconclusive('worker died before any scenario (rc=%d): %s' % (p.returncode, err[-3000:]))
+        if p.returncode == 5:
+            raise Inconclusive('worker made no progress for 2 minutes (no mutex deadlock) in shard %s: %s' % (name, err[-2000:]))
         if p.returncode in (3, 4):
             kind = 'wedged' if p.returncode == 3 else 'leak'
         else:
@@ -241,6 +243,12 @@ def trace_cfg(off=(), strict=False):
             'CONSTANT Off = {%s}\n' % ', '.join('"%s"' % g for g in off))
 
 
+# Named deviation actions of a trace specification announce each use with
+# PrintT(<<"TRACE_DEVIATION", name, line>>): the trace is accepted through them and
+# the orchestrator reports the matching known finding (match key "deviation_re").
+DEVIATIONS = {}   # name -> (validated trace file, line) of the first use seen
+
+
 def validate_file(spec, path, workdir, off=()):
     """Validates a batch of scenarios. Returns (rejected_lines, states): the
     specification skips to the next scenario after a line it cannot explain."""
@@ -248,6 +256,8 @@ def validate_file(spec, path, workdir, off=()):
     st = tlc_stats(out)
     if 'Model checking completed. No error has been found' not in out or not st:
         raise Inconclusive('TLC trace validation failed to run:\n' + out[-4000:])
+    for m in re.finditer(r'TRACE_DEVIATION", "(\w+)", (\d+)', out):
+        DEVIATIONS.setdefault(m.group(1), (path, int(m.group(2))))
     rej = sorted({int(m.group(1)) for m in re.finditer(r'TRACE_REJECTED_AT_LINE", (\d+), "of"', out)})
     return rej, st['distinct']
 
